@@ -255,7 +255,7 @@ Example tables_monitor_example :
   Permutation.Permutation (rev rpc_methods) rpc_methods /\ Permutation.Permutation (rev policy) policy /\
   check_case (3%N, CMethods (rev rpc_methods)) = [] /\ check_case (3%N, CPolicy (rev policy)) = [] /\
   (* a method the table does not know, a missing method, a listed method twice; an entry changed, an entry missing; a refusal *)
-  check_case (3%N, CMethods ("PeerMonitor.Extra" :: rpc_methods)) = [(3, 1, 0)]%N /\
+  check_case (3%N, CMethods ("PeerMonitor.NoSuchMethod" :: rpc_methods)) = [(3, 1, 0)]%N /\
   check_case (3%N, CMethods (tl rpc_methods)) = [(3, 1, 0)]%N /\
   check_case (3%N, CMethods ("Cluster.ID" :: rpc_methods)) = [(3, 1, 0)]%N /\
   check_case (3%N, CPolicy (("Cluster.Pin", Trusted) :: policy)) = [(3, 1, 0)]%N /\
